@@ -136,6 +136,7 @@ pub fn op_strategy(n_peers: u8, mix: Mix) -> BoxedStrategy<Op> {
         (2, peer().prop_map(Op::Restart).boxed()),
         (1, (node(), any::<u16>()).prop_map(|(node, sel)| Op::RespondOtherKind { node, sel }).boxed()),
         (1, (node(), any::<u16>()).prop_map(|(node, sel)| Op::RespondWithForeignId { node, sel }).boxed()),
+        (1, (node(), any::<u16>()).prop_map(|(node, sel)| Op::RespondHugeTotal { node, sel }).boxed()),
         (1, (peer(), node(), 0u8..3).prop_map(|(peer, to, variant)| Op::UndecodableMessage { peer, to, variant }).boxed()),
         (1, (peer(), any::<bool>(), prop_oneof![3 => Just(true), 1 => Just(false)]).prop_map(|(peer, ip, on)| Op::Ban { peer, ip, on }).boxed()),
     ];
